@@ -28,7 +28,7 @@ SHAPES = {"degenerate": (1, 1), "tiny": (3, 5), "odd": (37, 13), "large": (20011
 
 
 def REQUIRED(tier):
-    return [f"kernel:{k}" for k in KERNELS] + ["configs_run", "probe_runs", "probe_wrong", "canary_audits", "pyfunc_checks", "shape:large", "shape:degenerate", "affinity_pinned_cases", "kernel:lib_subband", "shape:chan1300"]
+    return [f"kernel:{k}" for k in KERNELS] + ["configs_run", "probe_runs", "probe_wrong", "canary_audits", "pyfunc_checks", "shape:large", "shape:degenerate", "affinity_pinned_cases", "kernel:lib_subband", "shape:chan1300", "kernel:lib_push_data"]
 
 
 def EXTRA_COVERAGE(tier, tot):
@@ -55,6 +55,8 @@ def cases(tier, seed):
             k += 1
             yield {"kernel": kern, "shape": shape, "dtype": "float32" if k % 2 else "uint8", "reps": max(1, reps // 3), "seed": int(seed) * 1009 + k, "tier": tier, "affinity": 2}
     yield {"kernel": "probe", "reps": reps, "seed": int(seed) * 1009 + 7000, "tier": tier, "affinity": 2}
+    for i, (nch, mode) in enumerate([(1, "full"), (2, "full"), (4, "full"), (8, "full"), (1, "basic"), (3, "basic")]):
+        yield {"kernel": "lib_push_data", "nchans": nch, "mode": mode, "seed": int(seed) * 1009 + 9000 + i, "tier": tier}
     for nch in (9, 10, 12, 16):
         yield {"kernel": "lib_subband", "nchans": nch, "reps": reps, "seed": int(seed) * 1009 + 9000 + nch, "tier": tier}
 
@@ -65,6 +67,12 @@ def _build(kern, ns, nch, dt, rng, fr):
 
     hi = 4 if dt == "uint8" else 4
     X = rng.integers(0, hi, size=(ns, nch)).astype(dt)
+    if kern == "remove_zerodm" and ns >= 4:
+        # blank spectra (recorder padding for dropped packets): single ones and bursts, so that some sit on parallel chunk boundaries
+        blank = rng.random(ns) < 0.2
+        for t0 in rng.integers(0, ns, size=max(1, ns // 40)):
+            blank[t0 : t0 + int(rng.integers(2, 9))] = True
+        X[blank] = 0
     flat = fr.like(X.ravel(), "in")
     Xf = X.astype(np.float64)
     if kern == "extract_tim":
@@ -215,11 +223,50 @@ def _lib_subband(case, ctx):
         K.subband = orig
 
 
+def _lib_push(case, ctx):
+    """ChannelStats.push_data as the library drives it (few channels, blocks of thousands of spectra, a first and a continuation block):
+    the record must be bit-identical for every thread count and its extrema must be those of the data."""
+    from sigpyproc.core.stats import ChannelStats
+
+    rng = np.random.default_rng([case["seed"], 29])
+    nch, mode = case["nchans"], case["mode"]
+    n1, n2 = 8192 + int(rng.integers(0, 9)), 16384
+    X = (rng.integers(100, 200, size=(n1 + n2, nch))).astype(np.uint8 if case["seed"] % 2 else np.float32)
+    first = None
+    for (t, k) in [(1, 0), (2, 0), (3, 1), (4, 0), (8, 0), (16, 0), (16, 3), (12, 2)]:
+        ctx.evaluated(); ctx.count("kernel:lib_push_data")
+        one = dict(case, config=[t, k])
+        holder = {}
+
+        def call():
+            cs = ChannelStats(nch, n1 + n2)
+            cs.push_data(X[:n1].ravel(), 0, mode=mode)
+            cs.push_data(X[n1:].ravel(), 1, mode=mode)
+            holder["m"] = np.array(cs.moments, copy=True)
+        try:
+            sched.run_config(min(t, NUMBA_THREADS), k, call)
+        except Exception as exc:  # noqa: BLE001
+            ctx.violation(f"kernel-raised:lib_push_data:{type(exc).__name__}@{exc_site(exc)}", f"threads={t} chunk={k}: {fmt_exc(exc)}", one)
+            return
+        m = holder["m"]
+        if first is None:
+            first = (m.tobytes(), (t, k))
+            if not (np.all(m["count"] == n1 + n2) and np.array_equal(m["min"].astype(np.float64), X.min(axis=0).astype(np.float64)) and np.array_equal(m["max"].astype(np.float64), X.max(axis=0).astype(np.float64))):
+                ctx.violation("wrong-result:lib_push_data", f"threads={t}: count {m['count'][:3].tolist()} min {m['min'][:3].tolist()} max {m['max'][:3].tolist()} for {n1 + n2} samples in [{X.min()},{X.max()}]", one)
+                return
+        elif m.tobytes() != first[0]:
+            ctx.violation("schedule-dependent:ChannelStats.push_data", f"{mode} moments of {nch} channel(s) under threads={t} chunk={k} differ from threads={first[1][0]} chunk={first[1][1]}", one)
+            return
+    ctx.nontrivial_case({"k": "lib_push", "nch": nch, "mode": mode})
+
+
 def _run_case(case, ctx):
     import numba
 
     if case["kernel"] == "lib_subband":
         return _lib_subband(case, ctx)
+    if case["kernel"] == "lib_push_data":
+        return _lib_push(case, ctx)
     rng = np.random.default_rng([case["seed"], 19])
     cfgs = sched.configs(case["tier"])
     reps = case["reps"]
